@@ -163,6 +163,10 @@ cdef class LegacyRecordBatch:
             Py_ssize_t length = 0
             char* buf
         buf = <char*> self._buffer.buf
+        if buffer_len == 0:
+            # No inner message to take the offset from (and nothing before
+            # the buffer that may be read instead)
+            raise CorruptRecordException("Empty compressed message")
         while pos < buffer_len:
             self._check_bounds(pos, LOG_OVERHEAD)
             length = <Py_ssize_t> hton.unpack_int32(&buf[pos + LENGTH_OFFSET])
